@@ -414,3 +414,44 @@ void hp_hwloc_distances_add(void)
   if (g < NV) __CPROVER_assert(nd->values[g] == uvals[g], "stored: the caller's values");
   VERIF_CANARY();
 }
+
+/* (C12) hwloc_internal_distances_dup: the duplicate list has the same structures in the same order with consistent links,
+ * equal scalars and array contents, an invalidated object cache, and shares NO storage with the source (every array and
+ * name is a distinct allocation); the source list is untouched; on allocation failure -1 */
+static struct hwloc_topology topo2;
+void hp_hwloc_internal_distances_dup(void)
+{
+  int r; unsigned k, j; struct hwloc_internal_distances_s *cur, *prev = (struct hwloc_internal_distances_s *)0; int keep[ND];
+  VERIF_GHOSTS();
+  mk_objects(); mk_list();
+  topo2.tma = (struct hwloc_tma *)0; topo2.first_dist = topo2.last_dist = (struct hwloc_internal_distances_s *)0; topo2.next_dist_id = nondet_unsigned();
+  r = hwloc_internal_distances_dup(&topo2, &topo);
+  __CPROVER_assert(r == 0 || r == -1, "returns 0 or -1");
+  for (k = 0; k < ND; k++) keep[k] = 1;
+  check_list(keep);                                        /* the source list is untouched */
+  for (k = 0; k < ND; k++) if (k < NL) {
+    __CPROVER_assert(L[k]->nbobjs == S[k].n && L[k]->kind == S[k].kind && L[k]->id == S[k].id && L[k]->iflags == S[k].iflags && L[k]->name == S[k].name, "source structure unchanged");
+    for (j = 0; j < NG * NG; j++) __CPROVER_assert(L[k]->values[j] == S[k].val[j], "source values unchanged");
+  }
+  if (r == 0) {
+    __CPROVER_assert(topo2.next_dist_id == topo.next_dist_id, "the id counter is copied");
+    cur = topo2.first_dist;
+    for (k = 0; k < ND; k++) if (k < NL) {
+      __CPROVER_assert(cur != 0 && cur != L[k], "duplicate list: one fresh structure per source structure, in order");
+      __CPROVER_assert(cur->prev == prev, "duplicate list: back links consistent");
+      __CPROVER_assert(cur->nbobjs == S[k].n && cur->kind == S[k].kind && cur->id == S[k].id && cur->unique_type == S[k].ut, "duplicate: same nbobjs, kind, id, type");
+      __CPROVER_assert(cur->iflags == (S[k].iflags & ~HWLOC_INTERNAL_DIST_FLAG_OBJS_VALID), "duplicate: object cache marked invalid, other flags kept");
+      __CPROVER_assert(cur->indexes != L[k]->indexes && cur->values != L[k]->values && cur->objs != L[k]->objs, "duplicate: arrays are not shared with the source");
+      __CPROVER_assert(S[k].name ? (cur->name != 0 && cur->name != S[k].name && cur->name[0] == S[k].name[0] && cur->name[1] == S[k].name[1] && cur->name[2] == 0) : cur->name == 0, "duplicate: private copy of the name");
+      __CPROVER_assert(S[k].has_types ? (cur->different_types != 0 && cur->different_types != L[k]->different_types) : cur->different_types == 0, "duplicate: private copy of the per-object types");
+      for (j = 0; j < NG; j++) {
+        __CPROVER_assert(cur->indexes[j] == S[k].idx[j] && cur->objs[j] == 0, "duplicate: same indexes, cached objects cleared");
+        if (S[k].has_types) __CPROVER_assert(cur->different_types[j] == S[k].ty[j], "duplicate: same per-object types");
+      }
+      for (j = 0; j < NG * NG; j++) __CPROVER_assert(cur->values[j] == S[k].val[j], "duplicate: same values");
+      prev = cur; cur = cur->next;
+    }
+    __CPROVER_assert(cur == 0 && topo2.last_dist == prev, "duplicate list: ends after the last structure, last_dist points to it");
+  }
+  VERIF_CANARY();
+}
